@@ -32,6 +32,9 @@ def plan(tier, seed):
     n = 8
     for s in range(n):
         jobs.append({"variant": "c" if s % 2 else "py", "part": "kernel", "shard": s // 2, "nshards": n // 2, "params": {}})
+    ns = 16 if thorough else 2
+    for s in range(ns):
+        jobs.append({"variant": "c" if s % 2 else "py", "part": "shapes", "shard": s, "nshards": ns, "params": {"stride": 2 if thorough else 40}})
     if thorough:
         for s in range(16):
             jobs.append({"variant": "c" if s % 2 else "py", "part": "allcp", "shard": s // 2, "nshards": 8, "params": {}})
@@ -143,6 +146,25 @@ def run(ctx):
                     judge(ctx, entry, op, (entry, cls, cx))
         ctx.sample({"entry": "join.base_escaped", "op": dict(entry_ops("%4\udc80"))["join.base_escaped"]})
         ctx.notes["kernel_chars"] = len(chars)
+        return
+    if ctx.part == "shapes":
+        from ..shapes import iter_shapes
+
+        stride = ctx.params["stride"] * ctx.nshards
+        hostile = ["a b", "é", "%zz", "<>", "x\udc80", "%41"]
+        j = 0
+        for lab, text, kw in iter_shapes(stride, ctx.shard * ctx.params["stride"] + ctx.seed % ctx.params["stride"]):
+            j += 1
+            t = hostile[j % len(hostile)]
+            bop = {"op": "ctor", "s": text}
+            ops = [bop, {"op": "mod", "base": bop, "m": "with_user", "args": [t]}, {"op": "mod", "base": bop, "m": "with_password", "args": [t]},
+                   {"op": "mod", "base": bop, "m": "with_query", "args": [{"t": "dict", "v": [[t, {"t": "strsub", "v": t}]]}]}, {"op": "div", "base": bop, "arg": t},
+                   {"op": "mod", "base": bop, "m": "with_port", "args": [{"t": "int", "v": "80"}]}, {"op": "mod", "base": bop, "m": "with_scheme", "args": ["https"]},
+                   {"op": "join", "base": bop, "ref": {"op": "ctor", "s": t}}]
+            if kw is not None:
+                ops.append({"op": "build", "kw": {k: (v if not isinstance(v, int) else {"t": "int", "v": str(v)}) for k, v in kw.items()}})
+            for op in ops:
+                judge(ctx, "shape." + op_name(op), op, ("shape", op_name(op)) + lab[1:4], touched=j % 2 == 0)
         return
     if ctx.part == "allcp":
         n = 0
